@@ -72,47 +72,55 @@ def check_deviations(ctx, res, obs_module, obs_cfg, relevant):
     ctx.extra["benign_deviation_states"] = ctx.extra.get("benign_deviation_states", 0) + len(keys) - bad
 
 
-def run_scenario(ctx, binary, mc_module, obs_module, name, relevant, nontrivial, simulate=None, use_fork=False):
+def run_scenario(ctx, binary, mc_module, obs_module, name, relevant, nontrivial, simulate=None, use_fork=False, extra_args=(), model_check=True, tag=""):
     """name: cfg stem (MC_<name>.cfg, E1_<name>.cfg, Obs_<name>.cfg). simulate=(num, depth) switches E1 to E2 sampling."""
-    ctx.tlc("UtxoChain", mc_module, "MC_%s.cfg" % name, name="MC_" + name) if not simulate else None
-    r = ctx.tlc("UtxoChain", mc_module, "E1_%s.cfg" % name, name="E1_" + name, simulate=simulate)
-    recs = vflib.load_emitted(r.emit_path)
-    uni = [x for x in recs if "universe" in x]
-    edges = [x for x in recs if "universe" not in x]
-    if not uni:
-        raise vflib.InfraError("specification did not print its universe")
-    upath = os.path.join(ctx.work, "universe_%s.json" % name)
-    json.dump(uni[0], open(upath, "w"))
-    per_action = collections.Counter(); per_result = collections.Counter()
-    for e in edges:
-        per_action[e["a"][0]] += 1
-        if e["a"][0] == "mine":
-            per_result[e["r"][0]] += 1
-    if simulate:
-        tmp = os.path.join(ctx.work, "sim_%s.ndjson" % name)
-        with open(tmp, "w") as f:
-            for e in edges:
-                f.write(json.dumps(e) + "\n")
-        paths = list(vflib.sim_behaviours(tmp))
-        nstates = 0
+    cache = getattr(ctx, "_scenario_cache", None)
+    if cache is None:
+        cache = ctx._scenario_cache = {}
+    if name in cache:
+        upath, paths, per_action, per_result = cache[name]
     else:
-        g = vflib.Graph(edges)
-        paths = list(g.path_cover())
-        nstates = len(g.nodes)
-        ctx.extra["model_transitions_covered"] = ctx.extra.get("model_transitions_covered", 0) + g.nedges
-    for p in paths:
-        p["init"] = {"world": p["init"]["world"], "obs": norm_obs(p["init"]["obs"])}
-        for s in p["steps"]:
-            s["exp"] = {"obs": norm_obs(s["exp"]["obs"])}
-        if nontrivial(p):
-            ctx.nontrivial.add(vflib.digest([s["a"] for s in p["steps"]]))
-    ctx.log("%s: %d states, %d transitions -> %d paths, %d steps" % (name, nstates, len(edges), len(paths), sum(len(p["steps"]) for p in paths)))
-    if paths:
-        mid = paths[len(paths) // 2]
-        ctx.sample(dict(scenario=name, actions=[s["a"] for s in mid["steps"]], expected_results=[s["r"] for s in mid["steps"]],
-                        expected_final_tip=mid["steps"][-1]["exp"]["obs"]["tip"]))
-    args = [upath] + (["fork"] if use_fork else [])
-    res = ctx.run_harness(binary, "replay", paths, args=args, name="E1_" + name)
+        if model_check and not simulate:
+            ctx.tlc("UtxoChain", mc_module, "MC_%s.cfg" % name, name="MC_" + name)
+        r = ctx.tlc("UtxoChain", mc_module, "E1_%s.cfg" % name, name="E1_" + name, simulate=simulate)
+        recs = vflib.load_emitted(r.emit_path)
+        uni = [x for x in recs if "universe" in x]
+        edges = [x for x in recs if "universe" not in x]
+        if not uni:
+            raise vflib.InfraError("specification did not print its universe")
+        upath = os.path.join(ctx.work, "universe_%s.json" % name)
+        json.dump(uni[0], open(upath, "w"))
+        per_action = collections.Counter(); per_result = collections.Counter()
+        for e in edges:
+            per_action[e["a"][0]] += 1
+            if e["a"][0] == "mine":
+                per_result[e["r"][0]] += 1
+        if simulate:
+            tmp = os.path.join(ctx.work, "sim_%s.ndjson" % name)
+            with open(tmp, "w") as f:
+                for e in edges:
+                    f.write(json.dumps(e) + "\n")
+            paths = list(vflib.sim_behaviours(tmp))
+            nstates = 0
+        else:
+            g = vflib.Graph(edges)
+            paths = list(g.path_cover())
+            nstates = len(g.nodes)
+            ctx.extra["model_transitions_covered"] = ctx.extra.get("model_transitions_covered", 0) + g.nedges
+        for p in paths:
+            p["init"] = {"world": p["init"]["world"], "obs": norm_obs(p["init"]["obs"])}
+            for s in p["steps"]:
+                s["exp"] = {"obs": norm_obs(s["exp"]["obs"])}
+            if nontrivial(p):
+                ctx.nontrivial.add(vflib.digest([s["a"] for s in p["steps"]]))
+        ctx.log("%s: %d states, %d transitions -> %d paths, %d steps" % (name, nstates, len(edges), len(paths), sum(len(p["steps"]) for p in paths)))
+        if paths:
+            mid = paths[len(paths) // 2]
+            ctx.sample(dict(scenario=name, actions=[s["a"] for s in mid["steps"]], expected_results=[s["r"] for s in mid["steps"]],
+                            expected_final_tip=mid["steps"][-1]["exp"]["obs"]["tip"]))
+        cache[name] = (upath, paths, per_action, per_result)
+    args = [upath] + (["fork"] if use_fork else ["nofork"]) + list(extra_args)
+    res = ctx.run_harness(binary, "replay", paths, args=args, name="E1_" + name + tag)
     res["args"] = args
     ctx.evaluations += int(res["summary"]["tests"]); ctx.traces += int(res["summary"]["tests"])
     ctx.extra["replayed_steps"] = ctx.extra.get("replayed_steps", 0) + int(res["summary"]["steps"])
